@@ -147,6 +147,19 @@ def run(ctx):
     ctx.drive("c05", None, of, args=[nr, lo, hi])
     ctx.judge("Judge_c05", "Judge_c05.cfg", of, label="rand", chunk=1000)
     ctx.note("random texts: %d" % ctx.count_lines(of))
+    # buffer boundaries (Gen_c05b): multi-byte characters and line breaks at every offset around the multiples of 4096
+    cb = "Gen_c05b.cfg"
+    open(ctx.path("spec", cb), "w").write("SPECIFICATION Spec\nCONSTANTS\n  Bufs = {4096}\n  Mults = %s\n  Around = %d\nCHECK_DEADLOCK FALSE\n"
+                                          % (("{1, 2}", 3) if ctx.quick else ("{1, 2, 3, 16}", 6)))
+    cf = ctx.path("cases_boundary.ndjson")
+    ctx.tlc("Gen_c05b", cb, env={"CASE_FILE": cf}, workers=1, timeout=900)
+    of = ctx.path("obs_boundary.ndjson")
+    ctx.drive("c05", cf, of)
+    ctx.judge("Judge_c05", "Judge_c05.cfg", of, label="boundary", chunk=40, timeout=1500)
+    nl = sum(len(x["obs"].get("longs", [])) for x in ctx.read_ndjson(of))
+    ctx.note("buffer boundaries: %d short inputs, each scanned again with %d runs that put what follows at every offset around "
+             "the multiples of 4096 (%d long scans)" % (ctx.count_lines(of), nl // max(1, ctx.count_lines(of)), nl))
+    ctx.coverage_extra["boundary_long_scans"] = nl
     # second half of the property: positions quoted by parse errors. Corpus: every single-token mutation
     # of 24 base statements (spec/c04/Gen_c04w.tla, part "mut") - almost all of them fail to parse.
     ctx.stage_specs("c05", "c04")
